@@ -996,7 +996,7 @@ theorem ti_op_connect {w : World} (h : TI w) (c : String) (node : Nat) (client m
     · rename_i hany
       exact ⟨h, noConn_of_find_none h.r (any_false_find hany)⟩
   generalize (if w.conns.any (fun e => e.1 == c) then w.drop c else w) = w1 at h1
-  exact ti_connect (ti_frame (w' := { w1 with out := w1.out.filter (fun e => e.1 != c) }) h1.1 rfl rfl rfl) _ _ _ _ _ _ _
+  exact ti_connect (ti_frame (w' := { w1 with out := w1.out.filter (fun e => e.1 != c), deaf := w1.deaf.filter (· != c) }) h1.1 rfl rfl rfl) _ _ _ _ _ _ _
     (noConn_congr h1.2 rfl)
 
 theorem ti_op_packet {w : World} (h : TI w) (c : String) (pkt : CPkt) : TI (applyOp w (.packet c pkt)) := by
@@ -1015,7 +1015,8 @@ theorem ti_op_openConn {w : World} (h : TI w) (c : String) (node : Nat) : TI (ap
     · exact ti_closeFromClient h c
     · rename_i hany
       exact ⟨h, noConn_of_find_none h.r (any_false_find hany)⟩
-  exact ti_openConn h1.1 c node h1.2
+  generalize (if w.conns.any (fun e => e.1 == c) then closeFromClient w c else w) = w1 at h1
+  exact ti_openConn (ti_frame (w' := { w1 with deaf := w1.deaf.filter (· != c) }) h1.1 rfl rfl rfl) c node (noConn_congr h1.2 rfl)
 
 theorem ti_op_raw {w : World} (h : TI w) (c : String) (b : List Nat) : TI (applyOp w (.raw c b)) := ti_rawBytes h c b
 
